@@ -106,15 +106,17 @@ PosDefined(t, i) == i <= Len(t) /\ (i > 0 /\ t[i] = "CR" => i < Len(t))
 
 \* --- the error a defective document deserves ----------------------------------------
 \* class and position of the FIRST offending unit; characters for non-printables, code units for undecodable input,
-\* both counted from the start of the stream (a byte order mark included)
-ExpectedError(d, f) ==
-  LET i == FirstBad(d) IN
-  IF d[i] \in NonPrintable THEN [kind |-> "unprintable", pos |-> Len(BomChars(f)) + i - 1]
-  ELSE [kind |-> "undecodable", pos |-> Len(Encode(SubSeq(d, 1, i - 1), f))]
-
+\* both counted from the start of the stream (a byte order mark included).  An undecodable sequence may be located at
+\* any of its units, from its first one up to the unit after it that shows it cannot be completed (span): CPython names
+\* the first unit, LibYAML the "invalid trailing octet" (and it takes 0xC0 for the start of a sequence where CPython
+\* calls it an invalid start byte); the statement only says "the right offset".
+OffenceAt(d, f, i) ==
+  IF d[i] \in NonPrintable THEN [kind |-> "unprintable", pos |-> Len(BomChars(f)) + i - 1, span |-> 0]
+  ELSE [kind |-> "undecodable", pos |-> Len(Encode(SubSeq(d, 1, i - 1), f)), span |-> Present(d[i], EncOf(f))]
+ExpectedError(d, f) == OffenceAt(d, f, FirstBad(d))
 \* every offending unit of the document with the error it would deserve if it were the first (used by the weak clause:
 \* "what is reported is an offending unit at its right offset")
-Offences(d, f) ==
-  {IF d[i] \in NonPrintable THEN [kind |-> "unprintable", pos |-> Len(BomChars(f)) + i - 1]
-   ELSE [kind |-> "undecodable", pos |-> Len(Encode(SubSeq(d, 1, i - 1), f))] : i \in {j \in DOMAIN d : IsBad(d[j])}}
+Offences(d, f) == {OffenceAt(d, f, i) : i \in {j \in DOMAIN d : IsBad(d[j])}}
+\* does a reported error [kind, pos] name the offence o ?
+Names(e, o) == e.kind = o.kind /\ o.pos <= e.pos /\ e.pos <= o.pos + o.span
 =============================================================================
